@@ -54,9 +54,13 @@ def dist(x1, x2, x1_eq_x2=False):
     Equivalent to `torch.cdist` with p=2, but clamps the minimum element to 1e-15.
     """
     if not x1_eq_x2:
-        # torch.cdist may use the quadratic expansion as well: shift both inputs by a common offset first (see sq_dist)
-        adjustment = x1.mean(-2, keepdim=True)
-        res = torch.cdist(x1 - adjustment, x2 - adjustment)
+        if x1.size(-2) > 25 or x2.size(-2) > 25:
+            # torch.cdist expands the square for more than 25 rows: shift both inputs by a common offset first (see sq_dist).
+            # For fewer rows it takes exact differences, which a shift could only make worse.
+            adjustment = x1.mean(-2, keepdim=True)
+            x1 = x1 - adjustment
+            x2 = x2 - adjustment
+        res = torch.cdist(x1, x2)
         return res.clamp_min(1e-15)
     res = sq_dist(x1, x2, x1_eq_x2=x1_eq_x2)
     return res.clamp_min_(1e-30).sqrt_()
